@@ -1,9 +1,149 @@
 import AioModel.Wire
-/-! Driver commands of property C14 (stub until the model exists). -/
+import AioModel.C14
+/-!
+Driver commands of property C14.
+
+* `tbl <op>… <Q|…>…`  build a route table with the registration ops, then resolve every request
+  (`lin` = same, but answer with the linear reference rule instead of the index walk).
+  ops: `R|method|path|hid|lit|requoted|…` (add_route), `S|prefix|requoted|hid` (add_static),
+  `[` (new sub-application), `A|prefix|requoted` (close it: add_subapp), `M|e|domain` /
+  `M|m|domain` (close it: add_domain, exact / mask), `F` (freeze the current application).
+  request: `Q|method|path_safe|normpath|host` (`host` = `~` for "no Host header").
+  reply: `ops=<code,…> dump=<tables> res=<result;…>`
+* `uf <path|lit|requoted|…> <name|quoted|…>`   url_for
+* `mw <a><r><m> <rawpath> <endsSlash>`          normalize_path_middleware candidates
+-/
 namespace Aio.Driver.C14
-open Aio Aio.Wire
+open Aio Aio.Wire Aio.C14
+
+def FUEL : Nat := 16
+
+def showErr : Err → String
+  | .value => "E_VALUE"
+  | .runtime => "E_RUNTIME"
+  | .assertion => "E_ASSERT"
+  | .key => "E_KEY"
+  | .unsupported => "E_UNSUPPORTED"
+  | .oracle => "E_ORACLE"
+  | .fuel => "E_FUEL"
+
+def ltStr : Str → Str → Bool
+  | [], [] => false
+  | [], _ :: _ => true
+  | _ :: _, [] => false
+  | a :: s, b :: t => a < b || (a == b && ltStr s t)
+
+def insertBy (lt : α → α → Bool) (x : α) : List α → List α
+  | [] => [x]
+  | y :: ys => if lt x y then x :: y :: ys else y :: insertBy lt x ys
+def sortBy (lt : α → α → Bool) (l : List α) : List α := l.foldr (insertBy lt) []
+
+def showDict (d : Dict) : String :=
+  ",".intercalate ((sortBy (fun a b => ltStr a.1 b.1) d).map (fun kv => showStr kv.1 ++ "=" ++ showStr kv.2))
+
+def showResult : Result → String
+  | .found h d => s!"ok:{h}:{showDict d}"
+  | .e405 a => "405:" ++ ",".intercalate ((sortBy ltStr a.eraseDups).map showStr)
+  | .e404 => "404"
+  | .nofuel => "E_FUEL"
+
+partial def dump (t : Table) : String :=
+  let one (r : Res) : String :=
+    match r with
+    | .plain p rts => "P" ++ showStr p ++ "/" ++ toString rts.length
+    | .dyn _ ps rts => "D" ++ showStr (formatter ps) ++ "/" ++ toString rts.length
+    | .static p rts => "S" ++ showStr p ++ "/" ++ toString rts.length
+    | .sub p s => "A" ++ showStr p ++ dump s
+    | .dom (.exact d) s => "M" ++ showStr d ++ dump s
+    | .dom (.mask d) s => "W" ++ showStr d ++ dump s
+  let idx := (sortBy (fun a b => ltStr a.1 b.1) (t.index.filter (fun e => !e.2.isEmpty))).map
+    (fun e => showStr e.1 ++ ":" ++ ".".intercalate (e.2.map toString))
+  "{" ++ ",".intercalate (t.rs.map one) ++ "#" ++ ";".intercalate idx ++ "#" ++
+    ".".intercalate (t.matched.map toString) ++ "}"
+
+def pairs : List String → Option (List (Str × Str))
+  | [] => some []
+  | k :: v :: t => do
+    let k ← parseStr k; let v ← parseStr v; let r ← pairs t
+    pure ((k, v) :: r)
+  | _ => none
+
+def parseReq (s : String) : Option Req :=
+  match s.splitOn "|" with
+  | ["Q", m, p, n, h] => do
+    let m ← parseStr m; let p ← parseStr p; let n ← parseStr n
+    let h ← if h == "~" then pure none else (parseStr h).map some
+    pure { path := p, norm := n, method := m, host := h }
+  | _ => none
+
+/-- run the build program on a stack of tables; returns op codes and the final stack -/
+def build : List String → List Table → List String → Option (List String × List Table)
+  | [], st, codes => some (codes.reverse, st)
+  | tok :: rest, st, codes =>
+    match tok.splitOn "|", st with
+    | "R" :: m :: path :: hid :: rq, t :: st' =>
+      match parseStr m, parseStr path, hid.toNat?, pairs rq with
+      | some m, some path, some hid, some rq =>
+        match addRoute rq t m path hid with
+        | .ok t' => build rest (t' :: st') ("ok" :: codes)
+        | .error e => build rest st (showErr e :: codes)
+      | _, _, _, _ => none
+    | ["S", pfx, q, hid], t :: st' =>
+      match parseStr pfx, parseStr q, hid.toNat? with
+      | some pfx, some q, some hid =>
+        match addStatic t pfx q hid with
+        | .ok t' => build rest (t' :: st') ("ok" :: codes)
+        | .error e => build rest st (showErr e :: codes)
+      | _, _, _ => none
+    | ["["], st => build rest (Table.empty :: st) codes
+    | ["F"], t :: st' => build rest (t.freeze :: st') codes
+    | ["A", pfx, q], s :: t :: st' =>
+      match parseStr pfx, parseStr q with
+      | some pfx, some q =>
+        match addSubapp FUEL t pfx q s with
+        | .ok t' => build rest (t' :: st') ("ok" :: codes)
+        | .error e => build rest (t :: st') (showErr e :: codes)
+      | _, _ => none
+    | ["M", kind, d], s :: t :: st' =>
+      match parseStr d with
+      | some d =>
+        if kind == "e" then build rest (addDomain t (.exact d) s :: st') ("ok" :: codes)
+        else if kind == "m" then build rest (addDomain t (.mask d) s :: st') ("ok" :: codes)
+        else none
+      | none => none
+    | _, _ => none
+
+def runTbl (useLinear : Bool) (toks : List String) : String :=
+  let ops := toks.filter (fun t => !t.startsWith "Q|")
+  let qs := toks.filter (fun t => t.startsWith "Q|")
+  match build ops [Table.empty] [], qs.mapM parseReq with
+  | some (codes, [t]), some reqs =>
+    let f := if useLinear then linear FUEL t else resolve FUEL t
+    s!"ops={",".intercalate codes} dump={dump t} res={";".intercalate (reqs.map (fun q => showResult (f q)))}"
+  | _, _ => "bad-op"
 
 def handle : List String → String
+  | "tbl" :: toks => runTbl false toks
+  | "lin" :: toks => runTbl true toks
+  | ["uf", tmpl, vals] =>
+    match tmpl.splitOn "|" with
+    | path :: rq =>
+      match parseStr path, pairs rq, (if vals == "-" then some [] else pairs (vals.splitOn "|")) with
+      | some path, some rq, some vals =>
+        match compile rq path with
+        | .error e => "err " ++ showErr e
+        | .ok ps =>
+          match urlFor ps vals with
+          | .ok s => "ok " ++ showStr s
+          | .error e => "err " ++ showErr e
+      | _, _, _ => "bad-op"
+    | [] => "bad-op"
+  | ["mw", fl, path, ends] =>
+    match fl.toList, parseStr path with
+    | [a, r, m], some path =>
+      let fl : MwFlags := { append := a == '1', remove := r == '1', merge := m == '1' }
+      ",".intercalate ((mwCandidates fl path (ends == "1")).map showStr)
+    | _, _ => "bad-op"
   | _ => "bad-op"
 
 end Aio.Driver.C14
